@@ -533,7 +533,33 @@ def run_shard(spec):
             st.run_world(rng, HEADER_CLASSES, nblocks=rng.choice([8, 14, 20]), ncand=45 if quick else 60)
     if spec["shard"] % 4 in (1, 2):
         miner_front_end_lane(st, rng, 2 if quick else 25, period=rng.choice([4, 5, 6]) if lane == "period" else None)
+    if lane != "period" and spec["shard"] % 4 == 0:
+        tall_lane(st, rng, 1 if quick else 6)
     return st.result()
+
+
+def tall_lane(st, rng, nworlds):
+    """chains tall enough (64+ blocks) for the height field to have more than one possible spelling: valid candidates at
+    heights 64..75 are offered in their canonical bytes and with the height written in the other spellings"""
+    for _ in range(nworlds):
+        world = gen.World(rng)
+        world.grow(rng.choice([63, 66, 70]), rng, tx_prob=0.05, bias="linear")
+        st.rejected_pool = []
+        for k in range(8):
+            head = world.cs.current_chain_hash
+            parent = world.chain.blocks[head]
+            rb = world.mine(world.draft(head, [], parent.ts + rng.choice([1, 60, 600]), world.keys[0][1]))
+            now = rb.ts + 5
+            canon = rb.enc()
+            vl = ref.vlq_enc(rb.height)
+            assert canon[1:1 + len(vl)] == vl
+            spellings = {"height-padded": b"\x80" + vl}
+            if len(vl) > 1 and vl[0] == 0x80:
+                spellings["height-textbook-minimal"] = vl[1:]
+            for name, alt in spellings.items():
+                st.attempt_bytes(world, rb, canon[:1] + alt + canon[1 + len(vl):], now, name)
+            st.c["tall_world_candidates"] = st.c.get("tall_world_candidates", 0) + 1
+            st.attempt(world, rb, now, "valid-tall", must=set(), claim_valid_accept=True)
 
 
 def miner_front_end_lane(st, rng, nsetups, period):
@@ -562,7 +588,10 @@ def finalize(m, tier):
               ("assembled_blocks_checked", c.get("assembled_blocks_checked", 0), 40),
               ("retarget_calls", c.get("pure", {}).get("retarget_calls", 0), 10000),
               ("future_limit_attempts", c.get("future_limit_attempts", 0), 50),
-              ("miner_front_end_found_blocks", c.get("miner_front_end_found_blocks", 0), 20)]
+              ("miner_front_end_found_blocks", c.get("miner_front_end_found_blocks", 0), 20),
+              ("accepted_ids_compared_with_target", c.get("accepted_ids_compared_with_target", 0), 500),
+              ("tall_world_candidates (heights 64+)", c.get("tall_world_candidates", 0), 24),
+              ("byte_level_offers", c.get("byte_level_offers", 0), 40)]
     for cls in list(HEADER_CLASSES) + list(PERIOD_ONLY):
         floors.append(("class " + cls, c.get("by_class", {}).get(cls, 0), 6))
     if tier == "thorough":
@@ -575,6 +604,7 @@ def finalize(m, tier):
                 "two lanes (documented retarget period; configuration lane with period 4-8 and documented timespan, "
                 "widely spaced timestamps), clock boundary pairs (ts = clock+30 / +31), pure-function comparisons of "
                 "retarget arithmetic and chain sampling; thorough adds the real 10,080 period over an un-mined prefix and "
-                "blocks mined with the unreplaced scrypt; distinct = distinct candidates / pure inputs by digest",
+                "blocks mined with the unreplaced scrypt; chains of 64+ blocks whose candidates are also offered with the height field "
+                "in its other spellings (whatever is accepted must be known to the node under an id below target); distinct = distinct candidates / pure inputs by digest",
         "floors": floors, "extra": {},
     }
